@@ -18,6 +18,7 @@ From Coq Require Import ZArith List Bool String.
 Import ListNotations.
 From MP Require Import Base Gen_path Gen_compact Gen_sqlbatch CacheMap CacheMap_proofs CachePath_proofs.
 From MP Require Import FileCache FileCache_proofs SqlCache SqlCache_proofs CacheBackends CacheBackends_proofs.
+From MP Require Import Bytes Bundle CompactBytes CompactBytes_proofs.
 Local Open Scope Z_scope.
 
 (* ---------------------------------------------------------------- what "behaves like a map" means *)
@@ -235,3 +236,21 @@ Theorem lookup_then_store_without_dimensions_reaches_the_request_address :
     r1 = Some false /\
     fst (fst (tcall_step layout ext link s1 t1 (TStore [] b))) = fstore layout ext link s (mkAddr x y z d) b.
 Proof. exact lookup_then_store_without_dimensions. Qed.
+
+(* ---------------------------------------------------------------- compact caches at byte level (through C19's Bundle.v) *)
+
+(* The byte-level model of the compact caches (bundle files as byte sequences: index entries, appended records,
+   header updates; several bundles per cache - C19's Bundle.v, tied to compact.py by C19's correspondence and by the
+   `compact_bytes` stream of this check) answers every history like the abstract map: payloads are the tile byte
+   strings (byte values, not empty, below the size the format can hold), the bundle files stay below 2^40 bytes.
+   Version 2 ... *)
+Theorem compact_v2_bytes_behave_like_a_map :
+  forall d0 ops, Forall (op_good two24 d0) ops -> B2 + ops_bytes5 ops < two40 ->
+    v2_bytes_outs ops = spec_outs ops.
+Proof. exact v2_bytes_refine. Qed.
+
+(* ... and version 1 (index file + data file). *)
+Theorem compact_v1_bytes_behave_like_a_map :
+  forall d0 ops, Forall (op_good two32 d0) ops -> B1 + ops_bytes5 ops < two40 ->
+    v1_bytes_outs ops = spec_outs ops.
+Proof. exact v1_bytes_refine. Qed.
